@@ -21,6 +21,40 @@ func verifCondWaiters(c *sync.Cond) int {
 	return int(atomic.LoadUint32(wait) - atomic.LoadUint32(notify))
 }
 
+// verifCondTickets returns the raw ticket counters of c: both only ever grow, wait when a goroutine parks, notify when one
+// is woken; two equal readings mean that nobody parked on or was woken from c in between.
+func verifCondTickets(c *sync.Cond) (wait uint64, notify uint64) {
+	nl := reflect.ValueOf(c).Elem().FieldByName("notify")
+	w := (*uint32)(unsafe.Pointer(nl.FieldByName("wait").UnsafeAddr()))
+	n := (*uint32)(unsafe.Pointer(nl.FieldByName("notify").UnsafeAddr()))
+
+	return uint64(atomic.LoadUint32(w)), uint64(atomic.LoadUint32(n))
+}
+
+// VerifTickets returns the summed ticket counters of the reader and writer condition variables (no lock taken).
+func (f *StarvingMutex) VerifTickets() (wait uint64, notify uint64) {
+	rw, rn := verifCondTickets(&f.readerCond)
+	ww, wn := verifCondTickets(&f.writerCond)
+
+	return rw + ww, rn + wn
+}
+
+// VerifTickets returns the summed ticket counters of both condition variables (no lock taken).
+func (c *Counter) VerifTickets() (wait uint64, notify uint64) {
+	dw, dn := verifCondTickets(c.valueDecreasedCond)
+	iw, in := verifCondTickets(c.valueIncreasedCond)
+
+	return dw + iw, dn + in
+}
+
+// VerifTickets returns the summed ticket counters of both condition variables (no lock taken).
+func (b *Stack[T]) VerifTickets() (wait uint64, notify uint64) {
+	aw, an := verifCondTickets(b.elementAdded)
+	rw, rn := verifCondTickets(b.elementRemoved)
+
+	return aw + rw, an + rn
+}
+
 // VerifState returns a snapshot of the lock state taken under the internal mutex, plus the number of goroutines
 // parked on the reader and the writer condition variable.
 func (f *StarvingMutex) VerifState() (readersActive int, writerActive bool, pendingWriters int, parkedReaders int, parkedWriters int) {
